@@ -345,7 +345,12 @@ pub fn run_c13(prop: &str, seed: u64, n: usize, trace_path: Option<&str>, rep: &
             let r = run_kind(inp.fmt, &inp.data, k, &param, if want_log { Some(&mut trace) } else { None });
             let mut vs = vec![];
             if r.verdict == Verdict::Panic {
-                vs.push(format!("panic: {}", r.msg));
+                if r0.verdict == Verdict::Panic {
+                    // the same panic when all data is exposed at once: nothing depends on the reader (C07's text)
+                    rep.drift(format!("(C07 clause seen while checking {}) {}: panic under every reader: {}", prop, inp.name, r.msg), json!({"reader": k}));
+                } else {
+                    vs.push(format!("panic with reader {}{:?}, {:?} when all data is exposed at once: {}", k, param, r0.verdict, r.msg));
+                }
             } else if r0.verdict != Verdict::Panic {
                 if (r.verdict == Verdict::Ok) != (r0.verdict == Verdict::Ok) {
                     vs.push(format!("verdict {:?} with reader {}{:?}, {:?} when all data is exposed at once ({} / {})", r.verdict, k, param, r0.verdict, r.msg, r0.msg));
